@@ -213,7 +213,8 @@ func c26Run(run int, cfg c26Config, kinds []callKind, reflected []string, k *key
 	r := &c26Runner{run: run, cfg: cfg, kinds: kinds, k: k, col: col, rs: &runState{col: col}, seed: seed,
 		fake: &fakeStorage{col: col}, path: filepath.Join(workdir, fmt.Sprintf("run%d.%s.log", run, cfg.ser))}
 	os.Remove(r.path)
-	col.add(event{"ev": "reset", "run": run, "ser": cfg.ser, "threads": cfg.threads, "methods": reflected})
+	col.add(event{"ev": "reset", "run": run, "ser": cfg.ser, "threads": cfg.threads, "methods": reflected,
+		"block": auditlog.GroundingBlockSize})
 	hangKind := callKind{M: "PutObject"}
 	bs := auditlog.GroundingBlockSize
 
